@@ -55,6 +55,9 @@ structure Proto where
   seq : Nat := 0
   /-- the environment's answers at the await points of `command`, in order -/
   script : List CResp := []
+  /-- `EZSP._protocol`: None before the version handler is configured (this state *is* the handler's; the field only says whether
+  `EZSP` holds it) -/
+  protocol : Option Unit := some ()
 deriving Repr
 
 /-- `self._ezsp_frame_rx(data)` of the class serving this protocol version -/
